@@ -106,6 +106,11 @@ let handle line =
        let (ys, crashed) = M.slice_database g db sd incl excl in
        w (if crashed then "1" else "0");
        wl (fun (l, s) -> ws l; w_db s) ys
+   | "VERIFY" -> let db = rd_db () in let l = rd_str () in w (if M.mm_verify db l then "1" else "0")
+   | "AGREE" -> let db = rd_db () in let s = rd_db () in let l = rd_str () in
+                w (if M.scope_agree db s l then "1" else "0")
+   | "DECL" -> let db = rd_db () in w (if M.declares_all db then "1" else "0")
+   | "CONSISTENT" -> let db = rd_db () in w (if M.consistent db then "1" else "0")
    | c -> raise (Bad ("command " ^ c))
   );
   let s = Buffer.contents buf in
